@@ -62,6 +62,17 @@ def directed(mc):
         h("dbg", "rgb8", alloc, 0, 0, "dims 0 1 0 3 2 1", "dims 1 1 4 4 4 2", "swap 0 1", "destroy 0", "rec 1 5 5 0 1")
         h("dbg", "rgb8", alloc, 0, 0, "dims 0 1 0 3 2 1", "dims 1 2 4 4 4 2", "swap 0 1", "destroy 0", "destroy 1")
         h("dbg", "elem", alloc, 0, 0, "dims 0 2 0 3 2 1", "dflt 1 1 8", "swap 1 0", "write 1 0 0 3", "destroy 1")
+        # converting copy constructor / converting assignment (interleaved <-> planar): same dimensions (copy_pixels across organisations), different
+        # dimensions (temporary of the source's alignment and allocator + swap), writes to either side afterwards; then between unequal instances
+        for org in ("rgb8", "rgb8p"):
+            h("dbg", org, alloc, 0, 0, "dims 0 1 4 3 2 1", "ccopy 4 0", "write 4 1 1 9", "write 0 0 0 8", "dims 1 1 0 3 2 6", "cassign 4 1",
+              "dims 2 1 8 5 3 2", "cassign 4 2", "write 2 0 0 7", "cassign 2 4", "destroy 4")
+            h("dbg", org, alloc, 0, 0, "dims 0 2 0 3 2 1", "ccopy 4 0", "dims 5 1 0 3 2 4", "cassign 4 5", "cassign 5 4", "massign 4 5", "destroy 0")
+        # self assignment / self move assignment / self swap; copy assignment with the same, then with other dimensions, writes in between (the allocation
+        # fault variants of these histories make the temporary of operator= throw: the target must keep its old value -- C10_assign_strong_guarantee)
+        for org in ("rgb8", "elem", "elemp", "gray1"):
+            h("dbg", org, alloc, 0, 0, "dims 0 1 0 3 2 1", "assign 0 0", "massign 0 0", "swap 0 0", "dims 1 1 0 3 2 0", "assign 1 0", "write 1 0 0 1",
+              "dims 2 1 2 4 4 1", "assign 1 2", "write 2 1 1 0", "assign 2 0")
         # reuse decision exactly at the boundary (same byte size, other shape), shrinking, growing, re-aligning
         for org in ORGS:
             v = 1
